@@ -29,5 +29,5 @@ ChooseQSim ==
     /\ pc' = "parse"
     /\ UNCHANGED <<A, B>> /\ UNCHANGED runvars
 
-SimNext == GrowA \/ DoneA \/ GrowB \/ ChooseQSim \/ Parse \/ BuildB \/ SetHeader \/ Pull \/ StartRecord \/ Match \/ Feed \/ Finish
+SimNext == GrowA \/ DoneA \/ GrowB \/ ChooseQSim \/ Parse \/ BuildB \/ SetHeader \/ RunInit \/ Pull \/ StartRecord \/ Match \/ Feed \/ Finish
 =============================================================================
